@@ -829,6 +829,53 @@ def generate_nearmiss_negclass(rng):
     return {"source": src, "need": [], "canaries": {}, "samples": [x.hex() for x in samples], "near_miss": True, "has_strings": True}
 
 
+def generate_nearmiss_yieldend(rng):
+    """
+    Near-miss programs for the yield and end-of-input side of liveness: yields (and plain actions) in `end` clauses,
+    else clauses, handlers and behind optional blocks inside loops - places where a yield sits on a transition that
+    does not consume input, or where end-of-input (which can never be consumed) may be matched again and again.
+    The compiler must reject these, or feed()/end() must come to an end however often the caller re-invokes them.
+    """
+    r = rng
+    a = chr(r.choice(LETTERS[:8]))
+    b = chr(r.choice(LETTERS[8:16]))
+    A = r.choice(('"%s"' % a, '/[%s%s]/' % (a, chr(ord(a) + 1)), '/%s+/' % a, '"%s%s"' % (a, b)))
+    B = '"%s"' % b
+    decl = ["out str[%d] s0;" % r.choice((2, 3)), "out int n0 = 0;", "out bool b0 = false;", "hook h0;", "yieldcode YA, YB;", "finishcode FA;"]
+    y = lambda: r.choice(("yield YA;", "yield YA;", "yield YA; h0();", "h0(); yield YA;", "n0 = [n0 + 1]; yield YB;", "yield YA; yield YB;"))
+    act = lambda: r.choice(("h0();", "n0 = [n0 + 1];", "b0 = true;", "", "delete s0;"))
+    shapes = [
+        "loop { case { %s -> { %s } end -> { %s } } }" % (A, act(), y()),
+        "loop { case { %s -> { %s } end -> { %s } } }" % (A, y(), act()),
+        "loop { case { %s -> { %s } end -> { %s } } }" % (A, act(), act()),
+        "loop { case { %s -> { %s } end -> { %s } else -> { %s; } } }" % (A, act(), y(), B),
+        "loop { %s; case { end -> { %s } else -> { %s } } }" % (A, y(), act()),
+        "loop { case { %s -> { %s } else -> { %s } } }" % (A, act(), y()),
+        "loop { optional { %s; } %s }" % (A, y()),
+        "loop { try { %s; } catch (nomatch) { %s } }" % (A, y()),
+        "loop { try { %s; %s; } catch (nomatch) { %s wait end; } }" % (A, B, y()),
+        "%s; %s wait end; %s" % (A, y(), act()),
+        "loop { %s; %s optional { %s; } }" % (A, y(), B),
+        "loop { case { %s -> { %s } end -> { %s break; } } } %s" % (A, act(), y(), act()),
+        "loop { case { %s -> { %s } end -> { %s finish FA; } } }" % (A, act(), y()),
+        "loop { case { %s -> { %s } end -> { if n0 < 2 { n0 = [n0 + 1]; } %s } } }" % (A, act(), y()),
+        "loop { greedy case { /[a-h]+/ -> { yield YA; } \" \" -> {} end -> { %s } } }" % y(),
+        "try { loop { %s; } } catch (nomatch) { %s loop { case { end -> { %s } %s -> {} } } }" % (A, act(), y(), B),
+        "foreach { loop { case { %s -> {} end -> { %s } } } } do { n0 = [n0 + 1]; }" % (A, y()),
+        "loop { s0 += %s; case { end -> { %s } else -> {} } }" % (A if A.startswith("/") else "/%s/" % a, y()),
+    ]
+    prog = r.choice(shapes)
+    lead = r.choice(("", "", "%s; " % B))
+    src = "\n".join(decl) + "\n\nparser {\n    " + lead + prog + "\n}\n"
+    pfx = b.encode() if lead else b""
+    aa = a.encode()
+    bb = b.encode()
+    samples = [pfx, pfx + aa, pfx + aa * 2, pfx + aa + bb, pfx + aa * 3 + bb, pfx + aa + bb + aa, pfx + b" ", pfx + aa + b" " + aa, pfx + bb,
+               pfx + aa * 5]
+    return {"source": src, "need": ["-fyield-support", "-feof-support"], "canaries": {}, "samples": [x.hex() for x in samples],
+            "near_miss": True, "has_strings": True}
+
+
 # ------------------------------------------------------------------ richer regexes (Glushkov first/last/follow)
 
 class RNode:
